@@ -116,6 +116,7 @@ fn make_driver(st: &str, cfg: &HashMap<String, String>) -> Box<dyn Driver> {
         "mem" => Box::new(s_mem::D::default()),
         "cuckoo" => Box::new(s_filter::D::<s_filter::Cuckoo>::default()),
         "qf" => Box::new(s_filter::D::<s_filter::Quot>::default()),
+        "hset" => Box::new(s_filter::D::<s_filter::HSet>::default()),
         "res" => Box::new(s_res::D::default()),
         "lossy" => Box::new(s_lossy::D::default()),
         "heap" => Box::new(s_heap::D::default()),
